@@ -327,6 +327,39 @@ def _definers(caller, callee, loff, boff):
                 if X not in chain and not xb['c'] and not xb['s'] and xb['t']['k'] == 'goto' and xb['t']['t'] in chain:
                     chain.add(X)
                     grew = True
+        preds = {}
+        for X in region:
+            xb = caller['bbs'][X]
+            if xb['c']:
+                continue
+            xt = xb['t']
+            succ = [xt['t']] if xt['k'] in ('goto', 'call') and xt.get('t') is not None else ([tb for _, tb in xt['v']] + [xt.get('o')] if xt['k'] == 'switch' else [])
+            for y in succ:
+                preds.setdefault(y, []).append(X)
+
+        def variant_at_end(P, depth=0):
+            """variant of the return value when control leaves block P (None = unknown)"""
+            pb = caller['bbs'][P]
+            pt = pb['t']
+            if pt['k'] == 'call' and pt['d'] == [ret0, []]:
+                if 'from_residual' in (pt['f'].get('def') or ''):
+                    ty = caller['locals'][ret0]
+                    return 'None' if ty.startswith('core::option::Option<') else 'Err' if ty.startswith('core::result::Result<') else None
+                return None
+            if pt['k'] == 'call' and pt['d'][0] == ret0:
+                return None
+            for st in reversed(pb['s']):
+                if st[0] == 'A' and st[1][0] == ret0:
+                    if st[1][1] == [] and st[2][0] == 'agg':
+                        m = re.search(r'core::(option::Option|result::Result)::(None|Some|Ok|Err)$', str(st[2][1]))
+                        if m:
+                            return m.group(2)
+                    return None
+            # the block itself does not touch the return value: it is what its only predecessor left
+            ps = preds.get(P, [])
+            if len(ps) == 1 and depth < 4 and ps[0] in region and caller['bbs'][ps[0]]['t']['k'] in ('goto', 'call'):
+                return variant_at_end(ps[0], depth + 1)
+            return None
         for P in region:
             pb = caller['bbs'][P]
             pt = pb['t']
@@ -335,19 +368,7 @@ def _definers(caller, callee, loff, boff):
             goes = (pt['k'] == 'goto' and pt['t'] in chain) or (pt['k'] == 'call' and pt.get('t') in chain)
             if not goes:
                 continue
-            var = None
-            if pt['k'] == 'call' and pt['d'] == [ret0, []]:
-                if 'from_residual' in (pt['f'].get('def') or ''):
-                    ty = caller['locals'][ret0]
-                    var = 'None' if ty.startswith('core::option::Option<') else 'Err' if ty.startswith('core::result::Result<') else None
-            elif pt['k'] == 'goto':
-                for st in reversed(pb['s']):
-                    if st[0] == 'A' and st[1] == [ret0, []]:
-                        if st[2][0] == 'agg':
-                            m = re.search(r'core::(option::Option|result::Result)::(None|Some|Ok|Err)$', str(st[2][1]))
-                            if m:
-                                var = m.group(2)
-                        break
+            var = variant_at_end(P)
             if var is not None:
                 out.append((P, var))
     return out
